@@ -295,3 +295,19 @@ def run_purgeops_inductive(cmd='restore', mutant='none', timeout=600):
         return {'ok': True, 'failed_phase': None, 'wall': time.time() - t0, 'detail': ''}
     finally:
         shutil.rmtree(d, ignore_errors=True)
+
+
+def run_putempty(name, with_days=True, emutant='none', invariants=('FreshKept', 'FreshInfoFirst'), procs=('p1',), slots=('n', 'n1'),
+                 preinfo=(('t', 'n1'),), prepay=(('t', 'n1'),), workers=4, timeout=900):
+    """trash-put concurrent with trash-empty [DAYS] (spec/PutEmpty.tla)"""
+    mod = putops_module('MC_' + name, procs=procs, cands=('t',), slots=slots, rand=(), preinfo=preinfo, prepay=prepay,
+                        dirs_exist=('t',)).replace('EXTENDS PutOps', 'EXTENDS PutEmpty')
+    cfg = ('INIT EInit\nNEXT ENext\n'
+           'CONSTANTS Procs <- MC_Procs Cands <- MC_Cands Slots <- MC_Slots RandSlots <- MC_RandSlots\n'
+           'CONSTANTS PreInfo <- MC_PreInfo PrePay <- MC_PrePay DirsExist <- MC_DirsExist CopyCands <- MC_CopyCands\n'
+           'CONSTANTS Sticky <- MC_Sticky TooLong <- MC_TooLong MaxFaults = 0 Mutant = "none"\n'
+           'CONSTANTS WithDays = %s EMutant = "%s"\n' % ('TRUE' if with_days else 'FALSE', emutant))
+    for i in invariants:
+        cfg += 'INVARIANT %s\n' % i
+    cfg += 'CHECK_DEADLOCK FALSE\n'
+    return tlc.run_tlc('MC_' + name, cfg_text=cfg, workers=workers, timeout=timeout, extra_files={'MC_%s.tla' % name: mod})
